@@ -366,6 +366,7 @@ func runC12(r *Run) {
 		}
 	}
 	c12Roaming(r, idp, &oauthCfg, verifier, gwURL)
+	c12Replay(r, idp, gwURL)
 	r.extra["model_disagreements"] = drift
 	if drift > 0 && !r.HasViolation() {
 		r.Unproven(fmt.Sprintf("correspondence Download.download = HandleDownload broke on %d cases with no policy, claim or acceptance failure found", drift), first)
@@ -441,5 +442,92 @@ func c12Roaming(r *Run, idp *fakeIdP, oauthCfg *oauth2.Config, verifier *oidc.ID
 			}
 		}
 		srv.Close()
+	}
+}
+
+// c12Replay: what the file is for. A file served to a logged-in session is presented to the real tunnel
+// handler over each transport: from the address it was issued to, the tunnel to the file's host opens; from
+// another address it does not.
+func c12Replay(r *Run, idp *fakeIdP, gwURL *url.URL) {
+	host := newHostListener()
+	defer host.close()
+	web.InitStore([]byte("0123456789abcdef0123456789abcdef"), []byte("fedcba9876543210fedcba9876543210"), "cookie", 0)
+	security.HostSelection = "roundrobin"
+	security.Hosts = []string{host.addr}
+	security.VerifyClientIP = true
+	idp.setToken("at-c12-replay", "ok:alice")
+	id := identity.NewUser()
+	id.SetUserName("alice")
+	id.SetAuthenticated(true)
+	id.SetAttribute(identity.AttrClientIp, "203.0.113.77")
+	id.SetAttribute(identity.AttrAccessToken, "at-c12-replay")
+	h := (&web.Config{PAATokenGenerator: security.GeneratePAAToken, Hosts: []string{host.addr}, HostSelection: "roundrobin", GatewayAddress: gwURL}).NewHandler()
+	rec := httptest.NewRecorder()
+	h.HandleDownload(rec, identity.AddToRequestCtx(id, httptest.NewRequest("GET", "http://gw.example.com/connect", nil)))
+	ls := rdpLines(rec.Body.String())
+	tok, full := ls["gatewayaccesstoken"], ls["full address"]
+	if rec.Code != 200 || tok == "" || full != host.addr {
+		r.Inconclusive()
+		return
+	}
+	gws := startGateway(c07Gateway(0))
+	defer gws.close()
+	hn, port := splitHostPort(full)
+	for _, kind := range []string{"ws", "legacy"} {
+		for _, from := range []string{"203.0.113.77", "203.0.113.78"} {
+			host.poll()
+			host.reset()
+			hdr := "X-Forwarded-For: " + from + "\r\n"
+			var cl gwClient
+			var pr *packetReader
+			connID := "{" + randHex(8) + "}"
+			if kind == "ws" {
+				if w, err := dialWS(gws.addr, connID, hdr); err == nil {
+					cl, pr = w, readWS(w, 10*time.Second)
+				}
+			} else if l, err := dialLegacy(gws.addr, connID, hdr); err == nil {
+				cl, pr = l, readLegacy(l, 10*time.Second)
+			}
+			if cl == nil {
+				r.Inconclusive()
+				continue
+			}
+			for _, pk := range [][]byte{mkPacket(tHandshake, bodyHandshake(1, 0, 0, 2)), mkPacket(tTunnel, bodyTunnelCreate(0, 1, append(utf16le(tok), 0, 0))),
+				mkPacket(tAuth, bodyTunnelAuth(append(utf16le("PC"), 0, 0))), mkPacket(tChannel, bodyChannel(port, append(utf16le(hn), 0, 0)))} {
+				cl.send(pk)
+			}
+			status := "none"
+			deadline := time.Now().Add(5 * time.Second)
+			for time.Now().Before(deadline) && status == "none" {
+				pk, ended := pr.snapshot()
+				for _, p := range pk {
+					if len(p) >= 12 && p[0] == 9 {
+						status = fmt.Sprintf("0x%08x", uint32(p[8])|uint32(p[9])<<8|uint32(p[10])<<16|uint32(p[11])<<24)
+					}
+				}
+				if ended {
+					break
+				}
+				time.Sleep(2 * time.Millisecond)
+			}
+			time.Sleep(20 * time.Millisecond)
+			host.poll()
+			n := len(host.conns)
+			pk, _ := pr.snapshot()
+			cl.close()
+			r.Count("replay:" + kind + ":" + from)
+			r.Dist("replay:" + kind)
+			rep := fmt.Sprintf("file served to alice at 203.0.113.77 for host %s (roundrobin); presented over the %s transport of the real handler from %s\nresponses: %s; channel response %s; connections at the host: %d\n", full, kind, from, pktsCanon(pk), status, n)
+			if kind == "legacy" && len(pk) == 0 {
+				r.Inconclusive() // the IN handler's Drain took the first packet
+				continue
+			}
+			if from == "203.0.113.77" && (status != "0x00000000" || n != 1) {
+				r.Violation("c12-replay", "a connection file served to a logged-in session does not open the tunnel to its host when presented from the address it was issued to", rep)
+			}
+			if from != "203.0.113.77" && (status == "0x00000000" || n != 0) {
+				r.Violation("c12-binding", "the file's token opens a tunnel from another address than the one it was issued to", rep)
+			}
+		}
 	}
 }
